@@ -134,7 +134,8 @@ type el struct {
 	T string `json:"t"`
 }
 
-// valDesc describes a stored value. Shape: 0 natural Go values ([]interface{} /
+// valDesc describes a stored value. Shapes 3, 4, 5 are values outside the property's domain (see goValue).
+// Shape: 0 natural Go values ([]interface{} /
 // map[string]interface{}), 1 []store.Value / map[string]store.Value, 2 json.RawMessage.
 type valDesc struct {
 	Keys  []string `json:"keys,omitempty"` // model only, parallel to Els
@@ -173,6 +174,28 @@ func (e el) goValue() interface{} {
 }
 
 func (d *valDesc) goValue(coll bool) interface{} {
+	switch d.Shape {
+	case 3: // the JSON kind of the OTHER resource type (array for a model handler, object for a collection handler)
+		o := *d
+		o.Shape = 0
+		if coll {
+			o.Keys = make([]string, len(o.Els))
+			for i := range o.Els {
+				o.Keys[i] = fmt.Sprintf("k%d", i)
+			}
+		}
+		return o.goValue(!coll)
+	case 4: // does not marshal at all
+		if coll {
+			return []interface{}{1, make(chan int)}
+		}
+		return map[string]interface{}{"a": 1, "c": make(chan int)}
+	case 5: // marshals, but holds something that is no RES value (a bare nested object / array)
+		if coll {
+			return []interface{}{1, []interface{}{2, 3}, map[string]interface{}{"x": 1}}
+		}
+		return map[string]interface{}{"a": 1, "o": map[string]interface{}{"x": 1}}
+	}
 	var nat interface{}
 	if coll {
 		l := make([]interface{}, len(d.Els))
@@ -311,6 +334,15 @@ func rvTerm(raw []byte) (string, bool) {
 		return "(RC " + List(parts) + ")", true
 	}
 	return "", false
+}
+
+// optRvOrBad is optRvOfGo for stored values and create data: what does not marshal or is not a
+// model / collection of RES values is the model's RBad.
+func optRvOrBad(v interface{}) string {
+	if t := optRvOfGo(v); t != "None" {
+		return t
+	}
+	return "(Some RBad)"
 }
 
 func optRvOfGo(v interface{}) string {
@@ -506,7 +538,8 @@ func strictTransformFn(id string, v interface{}) (interface{}, error) {
 
 type hcfg struct {
 	coll, def bool
-	trans     int    // 0 none, 1 transformFn, 2 strictTransformFn
+	trans     int    // 0 none, 1 IDTransformer(transformFn), 2 IDTransformer(strictTransformFn),
+	//                  3 TransformFuncs hiding ids that start with '0' + nil Transform, 4 TransformFuncs(nil, nil, transformFn)
 	name      string // m0..m5, c0..c5
 	tf        func(id string, v interface{}) (interface{}, error)
 	st               *mockstore.Store
@@ -518,13 +551,16 @@ func (h *hcfg) rid(key string) string {
 	return h.prefix() + key
 }
 func (h *hcfg) id(key string) string {
-	if h.trans != 0 {
+	if h.trans != 0 && h.trans != 4 {
 		return key
 	}
 	return h.prefix() + key
 }
 
-const nCfg = 6
+// coqTrans is the transformer flavour of Run_C10.hcase.
+func (h *hcfg) coqTrans() int { return []int{0, 1, 1, 2, 3}[h.trans] }
+
+const nCfg = 8
 
 type world struct {
 	s          *res.Service
@@ -541,20 +577,54 @@ func newWorld() *world {
 	s.SetLogger(w.log)
 	for _, coll := range []bool{false, true} {
 		for k := 0; k < nCfg; k++ {
-			// 0..3: bit0 = transformFn, bit1 = Default; 4 = strict transformer, 5 = strict transformer + Default
+			// 0..3: bit0 = transformFn, bit1 = Default; 4 = strict transformer, 5 = strict transformer + Default;
+			// 6 = TransformFuncs whose RIDToID / IDToRID return "" for ids starting with '0', nil Transform, + Default;
+			// 7 = TransformFuncs(nil, nil, transformFn): rid = id
 			h := &hcfg{coll: coll, trans: k & 1, def: k&2 == 2, st: mockstore.NewStore()}
-			if k >= 4 {
+			switch k {
+			case 4, 5:
 				h.trans, h.def = 2, k == 5
+			case 6:
+				h.trans, h.def = 3, true
+			case 7:
+				h.trans, h.def = 4, false
 			}
-			sh := store.Handler{Store: h.st}
+			var tr store.Transformer
 			switch h.trans {
 			case 1:
 				h.tf = transformFn
+				tr = store.IDTransformer("id", h.tf)
 			case 2:
 				h.tf = strictTransformFn
+				tr = store.IDTransformer("id", h.tf)
+			case 3:
+				h.tf = func(id string, v interface{}) (interface{}, error) { return v, nil }
+				tr = store.TransformFuncs(
+					func(rid string, pp map[string]string) string {
+						if strings.HasPrefix(pp["id"], "0") {
+							return ""
+						}
+						return pp["id"]
+					},
+					func(id string, v interface{}, p res.Pattern) string {
+						if strings.HasPrefix(id, "0") {
+							return ""
+						}
+						return string(p.ReplaceTag("id", id))
+					}, nil)
+			case 4:
+				h.tf = transformFn
+				tr = store.TransformFuncs(nil, nil, transformFn)
 			}
-			if h.trans != 0 {
-				sh.Transformer = store.IDTransformer("id", h.tf)
+			// half of the handlers are built through the option API, half as struct literals
+			var sh store.Handler
+			if k%2 == 1 || k == 6 {
+				sh = store.Handler{}.WithStore(h.st)
+				if tr != nil {
+					sh = sh.WithTransformer(tr)
+				}
+			} else {
+				sh = store.Handler{Store: h.st, Transformer: tr}
 			}
 			var typ res.Option = res.Model
 			h.name = fmt.Sprintf("m%d", k)
@@ -568,12 +638,16 @@ func newWorld() *world {
 				} else {
 					h.defGo = map[string]interface{}{"a": 1, "d": "def"}
 				}
-				sh.Default = h.defGo
+				if k%2 == 1 || k == 6 {
+					sh = sh.WithDefault(h.defGo)
+				} else {
+					sh.Default = h.defGo
+				}
 			}
 			s.Handle(h.name+".$id", typ, sh)
 			s.AddListener(h.name+".$id", func(ev *res.Event) {
 				if ev.Name == "create" {
-					w.createData = append(w.createData, optRvOfGo(ev.Data))
+					w.createData = append(w.createData, optRvOrBad(ev.Data))
 				}
 			})
 			w.cfgs = append(w.cfgs, h)
@@ -621,7 +695,8 @@ type caseDesc struct {
 	Kind string   `json:"kind"`
 	// Store: "" = mockstore as is (bare store.ErrNotFound / store.ErrDuplicate);
 	// "wrapped" = the store reports a missing value / a duplicate with errors that WRAP the
-	// sentinels (fmt.Errorf("...: %w", store.ErrNotFound)), as store.ReadTxn/WriteTxn allow.
+	// sentinels (fmt.Errorf("...: %w", store.ErrNotFound)), as store.ReadTxn/WriteTxn allow;
+	// "readerr" = Value() fails with an unrelated error.
 	Store string `json:"store,omitempty"`
 }
 
@@ -720,7 +795,19 @@ func (w *world) run(d caseDesc, dist map[string]int) Case {
 		}
 		return optRvOfGo(tv)
 	}
+	storeN := 0
+	if d.Store == "readerr" {
+		// Value() fails with an error that neither is nor wraps store.ErrNotFound
+		storeN = 2
+		c.Tags = append(c.Tags, "read-error-store")
+		h.st.OnValue = func(st *mockstore.Store, id string) (interface{}, error) {
+			return nil, errors.New("readerr: disk on fire")
+		}
+		defer wrapStore(h.st, false)
+		dist["case_readerr_store"]++
+	}
 	if d.Store == "wrapped" {
+		storeN = 1
 		c.Tags = append(c.Tags, "wrapped-store")
 		if !h.def {
 			c.Tags = append(c.Tags, "wrapped-store-no-default")
@@ -733,7 +820,7 @@ func (w *world) run(d caseDesc, dist map[string]int) Case {
 	if d.Init != nil {
 		gv := d.Init.goValue(h.coll)
 		h.st.Add(id, gv)
-		initT, tinitT = optRvOfGo(gv), tOf(gv)
+		initT, tinitT = optRvOrBad(gv), tOf(gv)
 	}
 	getT := func() (string, string) {
 		resp, err := w.c.get(rid)
@@ -753,7 +840,7 @@ func (w *world) run(d caseDesc, dist map[string]int) Case {
 		opn := 2
 		if o.Op != "delete" {
 			gv = o.Val.goValue(h.coll)
-			valT, tvalT = optRvOfGo(gv), tOf(gv)
+			valT, tvalT = optRvOrBad(gv), tOf(gv)
 			opn = 0
 			if o.Op == "update" {
 				opn = 1
@@ -825,7 +912,7 @@ func (w *world) run(d caseDesc, dist map[string]int) Case {
 	if h.def {
 		defT = optRvOfGo(h.defGo)
 	}
-	c.Term = fmt.Sprintf("CH (HC %s %s %s %s %s %s %s %s\n %s)", Bool(h.coll), Bool(h.trans != 0), defT, B(h.prefix()), B(id),
+	c.Term = fmt.Sprintf("CH (HC %s %s %s %s %s %s %s %s\n %s)", Bool(h.coll), fmt.Sprintf("%d %d", h.coqTrans(), storeN), defT, B(h.prefix()), B(id),
 		initT, tinitT, g0, List(steps))
 	c.Nontrivial = evTotal > 0
 	return c
@@ -1336,6 +1423,127 @@ func sizeFamily(tier string, seed uint64) []bigDesc {
 	return out
 }
 
+// ---------------------------------------------------------------- registration cases
+
+// regDesc: s.Handle("x.$id", <type option>, store.Handler) on a fresh service.
+type regDesc struct {
+	Kind  string `json:"kind"`  // "reg"
+	Store bool   `json:"store"` // Store set
+	Def   int    `json:"def"`   // 0 none, 1 unmarshalable, 2 object, 3 array, 4 other JSON
+	Typ   int    `json:"typ"`   // 0 unset, 1 res.Model, 2 res.Collection, 3 another value
+	API   bool   `json:"api"`   // built with WithStore/WithTransformer/WithDefault instead of a struct literal
+}
+
+func runReg(d regDesc, dist map[string]int) Case {
+	c := Case{Desc: d, Tags: []string{"registration"}}
+	lg := &quietLogger{}
+	s := res.NewService("reg")
+	s.SetLogger(lg)
+	st := mockstore.NewStore()
+	if d.Typ == 2 {
+		st.Add("reg.x.1", []interface{}{1, 2})
+	} else {
+		st.Add("reg.x.1", map[string]interface{}{"a": 1})
+	}
+	var def interface{}
+	switch d.Def {
+	case 1:
+		def = map[string]interface{}{"c": make(chan int)}
+	case 2:
+		def = map[string]interface{}{"a": 1}
+	case 3:
+		def = []interface{}{1}
+	case 4:
+		def = []interface{}{"str", 5, map[string]int(nil)}[(d.Typ+map[bool]int{false: 0, true: 1}[d.API])%3]
+	}
+	var sh store.Handler
+	if d.API {
+		if d.Store {
+			sh = sh.WithStore(st)
+		}
+		sh = sh.WithTransformer(nil)
+		if d.Def != 0 {
+			sh = sh.WithDefault(def)
+		}
+	} else {
+		if d.Store {
+			sh.Store = st
+		}
+		sh.Default = def
+	}
+	var opts []res.Option
+	switch d.Typ {
+	case 1:
+		opts = append(opts, res.Model)
+	case 2:
+		opts = append(opts, res.Collection)
+	case 3:
+		opts = append(opts, res.OptionFunc(func(h *res.Handler) { h.Type = res.ResourceType(99) }))
+	}
+	opts = append(opts, sh)
+	p := safely(func() { s.Handle("x.$id", opts...) })
+	pc := 0
+	if p != nil {
+		msg := fmt.Sprint(p)
+		switch {
+		case msg == "no Store is set":
+			pc = 1
+		case strings.HasPrefix(msg, "error marshaling default handler value"):
+			pc = 2
+		case msg == "Default value for TypeModel must be a json object.":
+			pc = 3
+		case msg == "no Type is set":
+			pc = 4
+		case msg == "Type must be set to TypeModel or TypeCollection":
+			pc = 5
+		default:
+			pc = 9
+		}
+	}
+	s.Handle("dummy", res.GetModel(func(r res.ModelRequest) { r.NotFound() }))
+	conn := &recConn{replies: map[string]chan []byte{}}
+	served := make(chan struct{})
+	s.SetOnServe(func(*res.Service) { close(served) })
+	go s.Serve(conn)
+	gc := 9
+	select {
+	case <-served:
+		if resp, err := conn.get("reg.x.1"); err == nil {
+			var r struct {
+				Result *struct {
+					Model      json.RawMessage `json:"model"`
+					Collection json.RawMessage `json:"collection"`
+				} `json:"result"`
+				Error *struct {
+					Code string `json:"code"`
+				} `json:"error"`
+			}
+			if json.Unmarshal(resp, &r) == nil {
+				switch {
+				case r.Result != nil && (string(r.Result.Model) == `{"a":1}` || string(r.Result.Collection) == `[1,2]`):
+					gc = 0
+				case r.Error != nil && r.Error.Code == "system.notFound":
+					gc = 1
+				case r.Error != nil && r.Error.Code == "system.internalError":
+					gc = 2
+				}
+			}
+		}
+		done := make(chan struct{})
+		go func() { s.Shutdown(); close(done) }()
+		select {
+		case <-done:
+		case <-time.After(3 * time.Second):
+		}
+	case <-time.After(5 * time.Second):
+	}
+	dist[fmt.Sprintf("reg_panic_%d", pc)]++
+	c.Term = fmt.Sprintf("CR (RG %s %d %d %d %d)", Bool(d.Store), d.Def, d.Typ, pc, gc)
+	c.Key = fmt.Sprintf("reg %+v", d)
+	c.Nontrivial = pc != 0
+	return c
+}
+
 // Without a Default, getResource answers a wrapped not-found with r.Error(err), and res.ToError
 // only recognises a *res.Error by type assertion: such a get is answered system.internalError
 // (not system.notFound).  The wrapped-store variant is therefore generated for handlers with a
@@ -1390,7 +1598,13 @@ func main() {
 			panic(err)
 		}
 	}
-	if o.Replay != "" && probe.Kind == "size" {
+	if o.Replay != "" && probe.Kind == "reg" {
+		var d regDesc
+		if err := LoadReplay(o.Replay, &d); err != nil {
+			panic(err)
+		}
+		cases = append(cases, runReg(d, dist))
+	} else if o.Replay != "" && probe.Kind == "size" {
 		var d bigDesc
 		if err := LoadReplay(o.Replay, &d); err != nil {
 			panic(err)
@@ -1511,6 +1725,57 @@ func main() {
 				}
 			}
 		}
+		// (c3) coverage families
+		for _, h := range w.cfgs {
+			v1 := &valDesc{Keys: []string{"a", "b"}, Els: []el{{"p", "1"}, {"p", "2"}}}
+			v2 := &valDesc{Keys: []string{"b", "c"}, Els: []el{{"p", "2"}, {"r", "test.x"}}}
+			hid := &valDesc{Keys: []string{"a", "deleted"}, Els: []el{{"p", "1"}, {"p", "true"}}}
+			hid2 := &valDesc{Keys: []string{"deleted", "z"}, Els: []el{{"p", "false"}, {"p", "9"}}}
+			if h.coll {
+				v1 = &valDesc{Els: []el{{"p", "1"}, {"p", "2"}}}
+				v2 = &valDesc{Els: []el{{"p", "2"}, {"r", "test.x"}, {"p", "1"}}}
+				hid = &valDesc{Els: []el{{"p", "1"}, {"p", `"!hide"`}}}
+				hid2 = &valDesc{Els: []el{{"p", `"!hide"`}, {"p", "7"}, {"p", "8"}}}
+			}
+			// a store whose reads fail with an unrelated error: every get is an error, events as usual
+			add(caseDesc{Cfg: h.name, Kind: "read_error", Store: "readerr", Init: v1,
+				Ops: []opDesc{{"update", v2}, {"delete", nil}, {"create", v1}}})
+			// Transform fails for the value before AND after (both sides missing)
+			if h.trans != 0 && h.trans != 3 {
+				add(caseDesc{Cfg: h.name, Kind: "both_hidden", Init: hid,
+					Ops: []opDesc{{"update", hid2}, {"update", v1}, {"update", hid}, {"update", hid2}, {"delete", nil}, {"create", hid}}})
+			}
+			// ids for which RIDToID / IDToRID return "": never served, nothing published
+			if h.trans == 3 {
+				for _, key := range []string{"0h", "0", "00x"} {
+					add(caseDesc{Cfg: h.name, Key: key, Kind: "hidden_id",
+						Ops: []opDesc{{"create", v1}, {"update", v2}, {"delete", nil}, {"create", v2}, {"delete", nil}}})
+					add(caseDesc{Cfg: h.name, Key: key, Kind: "hidden_id", Init: v1, Ops: []opDesc{{"update", v2}, {"delete", nil}}})
+				}
+			}
+			// values outside the domain (wrong JSON kind for the type, not marshallable, not RES values):
+			// the diff fails, nothing is published; correspondence only
+			if h.trans == 0 {
+				w3 := &valDesc{Els: v1.Els, Shape: 3}
+				w4 := &valDesc{Shape: 4}
+				w5 := &valDesc{Shape: 5}
+				add(caseDesc{Cfg: h.name, Kind: "bad_value", Init: v1, Ops: []opDesc{{"update", w3}, {"update", v1}, {"update", w4},
+					{"update", v2}, {"update", w5}, {"update", w3}, {"update", w4}, {"delete", nil}, {"create", w5}, {"delete", nil},
+					{"create", w4}, {"update", v1}, {"delete", nil}, {"create", w3}, {"update", w3}}})
+				add(caseDesc{Cfg: h.name, Kind: "bad_value", Init: w4, Ops: []opDesc{{"update", v1}, {"update", w5}, {"delete", nil}}})
+			}
+		}
+		// (c4) registration: every combination of Store set / Default kind / Type, both ways of building the handler
+		for _, api := range []bool{false, true} {
+			for _, st := range []bool{true, false} {
+				for def := 0; def <= 4; def++ {
+					for typ := 0; typ <= 3; typ++ {
+						cases = append(cases, runReg(regDesc{Kind: "reg", Store: st, Def: def, Typ: typ, API: api}, dist))
+						dist["case_reg"]++
+					}
+				}
+			}
+		}
 		// (d) random histories
 		n := 560
 		maxEl := 12
@@ -1559,10 +1824,13 @@ func main() {
 		cases = merged
 	}
 	Emit(o, "C10", "From GoRes Require Import Run.Run_C10.", "ccase",
-		"real res.Service + mockstore + store.Handler in 12 configurations (model|collection x {no Transformer, non-identity Transformer accepting any value, "+
-			"non-identity Transformer that rejects every Go type but the stored ones (e.g. the json.RawMessage Default)} x +-Default); "+
+		"real res.Service + mockstore + store.Handler in 16 configurations (model|collection x {no Transformer, IDTransformer with a non-identity Transform accepting any value, "+
+			"IDTransformer with a non-identity Transform that rejects every Go type but the stored ones (e.g. the json.RawMessage Default)} x +-Default, "+
+			"TransformFuncs hiding some ids with nil Transform + Default, TransformFuncs(nil,nil,f)), half built with the With* option API; "+
 			"ALL ordered pairs of collections of length <= 3 (quick) / <= 4 (thorough) over {1,2,3} as store content a then Update(b); "+
 			"all pairs of models over 2 keys x {absent,1,2}; corner histories (create/delete/default/transform error; create-update-delete-recreate of the entry of a default-backed resource) per configuration; "+
+			"coverage families: read-error store, Transform failing on both sides, ids hidden by RIDToID/IDToRID = \"\", values outside the domain (wrong JSON kind, unmarshallable, no RES values), "+
+			"80 registration cases (Store set?, Default none/unmarshallable/object/array/other, Type unset/model/collection/invalid, struct literal vs With* API) with the documented panics as outcomes; "+
 			"store variant 'wrapped' (missing value / duplicate reported with errors that wrap store.ErrNotFound / store.ErrDuplicate) on handlers with a Default for 35% of the random and all default-backed histories; "+
 			"confusable values (different for Value.Equal, equal for a lossy/normalising comparison: numbers around +-2^53, +-2^63, 1e400, 1e-400/0/-0, 18th fraction digit, 1/1.0/1e0, \\u escapes, key order / number spelling inside data values, also nested) stored verbatim: "+
 			"every ordered pair of each group as model and collection updates (replace, swap places, with context), 18% of random elements, and near-equal edits (element -> sibling, sibling neighbour, swap) in 45% of the random updates; "+
